@@ -4,19 +4,26 @@
 For each: git -C /repo apply patch.diff ; ./check <property> quick ; git -C /repo checkout -- .
 Records the outcome in seeded/<name>/meta.json ("detected_by") and seeded/RESULTS.md."""
 import json, os, subprocess, sys, time, glob
-VERIF = "/verif"; REPO = "/repo"
+VERIF = os.environ.get("PCV_VERIF", "/verif"); REPO = os.environ.get("PCV_REPO", "/repo"); SEEDS = "/verif/seeded"
 
 def sh(cmd, cwd=None, timeout=7200):
     return subprocess.run(cmd, shell=True, cwd=cwd, stdout=subprocess.PIPE, stderr=subprocess.STDOUT, text=True, timeout=timeout)
 
 def main():
     args = [a for a in sys.argv[1:] if not a.startswith("--")]
+    part = [a for a in sys.argv[1:] if a.startswith("--part=")]
+    part = tuple(int(x) for x in part[0][7:].split("/")) if part else None
+    only = [a[7:] for a in sys.argv[1:] if a.startswith("--only=")]
     thorough = "--thorough-on-miss" in sys.argv
     assert sh("git status --porcelain", REPO).stdout.strip() == "", "/repo not clean"
     rows = []
-    for d in sorted(glob.glob(os.path.join(VERIF, "seeded", "C*"))):
+    for di, d in enumerate(sorted(glob.glob(os.path.join(SEEDS, "C*")))):
         name = os.path.basename(d)
         if args and not any(a in name for a in args):
+            continue
+        if only and not any(name.endswith(o) for o in only):
+            continue
+        if part and di % part[1] != part[0]:
             continue
         meta = json.load(open(os.path.join(d, "meta.json")))
         prop = meta["property"]
@@ -41,10 +48,10 @@ def main():
         print(name, "DETECTED by " + det if det else "MISSED", out, flush=True)
     assert sh("git status --porcelain", REPO).stdout.strip() == ""
     # regenerate the summary table from all meta.json files
-    with open(os.path.join(VERIF, "seeded", "RESULTS.md"), "w") as f:
+    with open(os.path.join(SEEDS, os.environ.get("PCV_SEED_OUT", "RESULTS.md")), "w") as f:
         f.write("# Seeded changes (written by independent sub-agents from the property text alone)\n\n")
         f.write("| seed | property | confirmed (suite passes / demo fails with / passes without) | detected by | message |\n|---|---|---|---|---|\n")
-        for d in sorted(glob.glob(os.path.join(VERIF, "seeded", "C*"))):
+        for d in sorted(glob.glob(os.path.join(SEEDS, "C*"))):
             m = json.load(open(os.path.join(d, "meta.json")))
             runs = m.get("check_runs", {})
             msg = next((runs[t]["message"] for t in runs if runs[t]["exit"] == 1), "")
